@@ -393,12 +393,34 @@ def c05e(ctx):
             ctx.fail(o, clears[0], "`self.future = None` is not restricted to the Poll::Ready branch: a Pending guard would be forgotten and never spawned on drop")
 
 
+def c05i(ctx):
+    """Helper tasks of a query (repairing firewalls, verifying an unordered group, re-executing projections) are children of
+    the query's future: dropping the query must abort them.  A `JoinSet` does that; `tokio::spawn` detaches - the orphans
+    keep running outside the locks their parent released and keep the phase guard they cloned, so a blocked executor
+    keeps input sessions out for good.  Detaching is reserved for the places that MUST finish after a drop: Guard::drop,
+    Drop for InputSession, and the long-lived workers started by constructors."""
+    prog = ctx.prog
+    o = ctx.ob("C05.i", "helper-tasks/aborted-with-their-parent", "K3", "tokio::spawn is called only by Guard::drop, Drop for InputSession and constructors; query-side fan-out goes through JoinSet::spawn")
+    ALLOWED = (r"^<Guard as Drop>::drop$", r"^<InputSession as Drop>::drop$", r"^DirtyWorker::new$")
+    det = [s_ for s_ in prog.callers_of(r"tokio::task::spawn::spawn$") if s_.body.crate == "qbice"]
+    js = [s_ for s_ in prog.callers_of(r"tokio::task::join_set::JoinSet::<T>::spawn$") if s_.body.crate == "qbice"]
+    o.sites = len(det) + len(js)
+    for s_ in det:
+        ctx.touch(s_.body)
+        if not any(re.search(a, s_.body.name) for a in ALLOWED):
+            ctx.fail(o, s_, "%s detaches a task with tokio::spawn: it is not aborted when the query that started it is dropped - it goes on working outside the locks its parent "
+                     "released and keeps its clone of the phase guard (no input session can begin while it is blocked)" % s_.body.name)
+    if len(js) < 3:
+        ctx.fail(o, "(program)", "expected >= 3 JoinSet::spawn fan-out sites on the query side (firewall repair, unordered group, backward projection), found %d" % len(js))
+
+
 def run(ctx):
     ctx.run_clause("C05.e", c05e)
     ctx.run_clause("C05.a", c05a)
     ctx.run_clause("C05.b", c05b)
     ctx.run_clause("C05.c", c05c)
     ctx.run_clause("C05.d", c05d)
+    ctx.run_clause("C05.i", c05i)
     # a panic of a callee's executor inside an unordered group surfaces as a JoinError of its chunk: the join loop must
     # treat it as `recompute`, never as clean (rule shared with C01.n)
     from . import C01
